@@ -3669,13 +3669,25 @@ func (b *SystemBackend) handleWrappingRewrap(ctx context.Context, req *logical.R
 	// the original wrapping token and its cubbyhole would never be removed.
 	token = te.ID
 
+	// The wrapping token, its lease and its cubbyhole live in the token's
+	// namespace, which is not the request's namespace when the caller of a
+	// parent namespace passes the token in the body (as in unwrap and lookup).
+	rewrapNS, err := b.Core.NamespaceByID(ctx, te.NamespaceID)
+	if err != nil {
+		return nil, err
+	}
+	if rewrapNS == nil {
+		return nil, errors.New("token is not from a valid namespace")
+	}
+	rewrapCtx := namespace.ContextWithNamespace(ctx, rewrapNS)
+
 	if thirdParty {
 		// Use the token to decrement the use count to avoid a second operation on the token.
-		_, err := b.Core.tokenStore.UseTokenByID(ctx, token)
+		_, err := b.Core.tokenStore.UseTokenByID(rewrapCtx, token)
 		if err != nil {
 			return nil, fmt.Errorf("error decrementing wrapping token's use-count: %w", err)
 		}
-		defer b.Core.tokenStore.revokeOrphan(ctx, token)
+		defer b.Core.tokenStore.revokeOrphan(rewrapCtx, token)
 	}
 
 	// Fetch the original TTL
@@ -3685,7 +3697,7 @@ func (b *SystemBackend) handleWrappingRewrap(ctx context.Context, req *logical.R
 		ClientToken: token,
 	}
 	cubbyReq.SetTokenEntry(te)
-	cubbyResp, err := b.Core.router.Route(ctx, cubbyReq)
+	cubbyResp, err := b.Core.router.Route(rewrapCtx, cubbyReq)
 	if err != nil {
 		return nil, fmt.Errorf("error looking up wrapping information: %w", err)
 	}
@@ -3723,7 +3735,7 @@ func (b *SystemBackend) handleWrappingRewrap(ctx context.Context, req *logical.R
 		ClientToken: token,
 	}
 	cubbyReq.SetTokenEntry(te)
-	cubbyResp, err = b.Core.router.Route(ctx, cubbyReq)
+	cubbyResp, err = b.Core.router.Route(rewrapCtx, cubbyReq)
 	if err != nil {
 		return nil, fmt.Errorf("error looking up response: %w", err)
 	}
